@@ -262,15 +262,65 @@ def profile_orders(units, rng, full):
 STREAM = ["Audio", "Metadata", "PushUpdater", "RemoteControl"]     # what RAOP takes over during stream_file
 
 
-def holder_scenarios(rng, thorough):
-    """Takeover states under which the members are invoked: none; RAOP holding what it takes over while
-    streaming; AirPlay holding RemoteControl (play_url); a protocol holding every interface."""
-    sc = [None, ("RAOP", STREAM), ("AirPlay", ["RemoteControl"])]
-    sc += [(p, list(RELAYED)) for p in (PROTOS if thorough else [rng.choice(PROTOS)])]
+ALL_IFACES = [n for n, _, _ in c01.IFACES]      # every key of FacadeAppleTV._interfaces, Features included
+
+
+async def discover_takeovers():
+    """What the real streaming entry points take over, asked from the code itself: every Stream object the
+    real setup() generators register is given a recording core.takeover (which raises) and its
+    stream_file / play_url is started.  Returns [(protocol, [interface names])]."""
+    import asyncio
+    from pyatv import interface
+    c01.quiet()
+
+    class Stop(Exception):
+        pass
+    rec = []
+    prof = [p for p in PROFILES if p[0] == "atv4k_tvos15_hap_tunnel_auto"][0]
+    units, cleanup = await profile_units(prof)
+    try:
+        for u in units:
+            st = u["sd"].interfaces.get(interface.Stream)
+            if st is None or not hasattr(st, "core"):
+                continue
+
+            def tk(*ifs, _p=u["proto"]):
+                rec.append((_p, [i.__name__ for i in ifs if getattr(i, "__name__", None) in ICOQ]))
+                raise Stop()
+            st.core.takeover = tk
+            for name, args in (("stream_file", ("verif-no-such-file",)), ("play_url", ("http://127.0.0.1:9/x",))):
+                if c01.overrides_mro(type(st), interface.Stream, name):
+                    try:
+                        await asyncio.wait_for(getattr(st, name)(*args), 5)
+                    except BaseException:  # noqa
+                        pass
+    finally:
+        await cleanup()
+    out = []
+    for r in rec:
+        if r[1] and r not in out:
+            out.append(r)
+    return out
+
+
+def holder_scenarios(rng, thorough, discovered, protos, mode="real"):
+    """Takeover states under which the features are queried and the members invoked: none; what the real
+    stream_file / play_url take over (asked from the code, see discover_takeovers; at least RAOP holding
+    Audio/Metadata/PushUpdater/RemoteControl and AirPlay holding RemoteControl); every set-up protocol
+    holding EVERY interface of the device object, Features included."""
+    sc = [None]
+    for d in list(discovered) + [("RAOP", STREAM), ("AirPlay", ["RemoteControl"])]:
+        d = (d[0], list(d[1]))
+        if d not in sc:
+            sc.append(d)
+    if thorough:
+        sc += [(p, list(ALL_IFACES)) for p in PROTOS]
+    elif mode == "real":          # quick tier: with the real Features objects only
+        sc += [(p, list(ALL_IFACES)) for p in protos]
     return sc
 
 
-async def drive_real(t, mode, pidx, orders, only_features=None, scenarios=(None,)):
+async def drive_real(t, mode, pidx, orders, only_features=None, scenarios=(None,), only_kwargs=None):
     """One device profile.  mode 'real': the real Features objects answer; mode 'worst': Features stubs that
     report every feature as Available (the over-approximation of the model made concrete).  For every order
     (list of unit ids) a device object is assembled from the real objects, every feature is asked and every
@@ -299,44 +349,49 @@ async def drive_real(t, mode, pidx, orders, only_features=None, scenarios=(None,
         label = {u["id"]: "%s>%s" % (u["src"], u["proto"]) for u in units}
         for order in orders:
             atv = await c01.build_facade([off[i] for i in order])
-            gate = atv.features.in_state(FeatureState.Available, FeatureName.PlayUrl)
-            recs_here = []
-            for f in t["features"]:
-                if only_features and f["name"] not in only_features:
-                    continue
-                del log[:]
-                info = atv.features.get_feature(getattr(FeatureName, f["name"]))
-                asked = [e[0] for e in log if e[1] == "Features"]
-                rec = {"profile": prof[0], "pidx": pidx, "order": order, "added": [label[i] for i in order],
-                       "feature": f["name"], "index": f["index"], "state": info.state.name,
-                       "asked": asked, "gate": gate, "calls": [], "members": list(dict.fromkeys(map(tuple, f["members"])))}
-                recs_here.append(rec)
-            # every member of every reported feature is INVOKED through the device object, under every
-            # takeover scenario; the call must reach some protocol's implementation
-            for sc in scenarios:
+            protos = list(dict.fromkeys(u["proto"] for i in order for u in units if u["id"] == i))
+            scs = scenarios(protos) if callable(scenarios) else scenarios
+            for sc in scs:
                 tok = atv.takeover(P(sc[0]), *[iface_cls(i) for i in sc[1]]) if sc else None
-                for rec in recs_here:
-                    if rec["state"] == "Unsupported":
+                gate = atv.features.in_state(FeatureState.Available, FeatureName.PlayUrl)
+                for f in t["features"]:
+                    if only_features and f["name"] not in only_features:
                         continue
-                    for (i, m) in rec["members"]:
+                    del log[:]
+                    info = atv.features.get_feature(getattr(FeatureName, f["name"]))
+                    asked = [e[0] for e in log if e[1] == "Features"]
+                    rec = {"profile": prof[0], "pidx": pidx, "order": order, "added": [label[i] for i in order],
+                           "holder": [sc[0], list(sc[1])] if sc else None,
+                           "feature": f["name"], "index": f["index"], "state": info.state.name,
+                           "asked": asked, "gate": gate, "calls": []}
+                    out.append(rec)
+                    if info.state == FeatureState.Unsupported:
+                        continue
+                    # every member the reported feature stands for is INVOKED through the device object, with
+                    # every variation of its enum/bool/number arguments; it must reach an implementation
+                    for (i, m) in dict.fromkeys(map(tuple, f["members"])):
                         base = iface_cls(i)
                         kind = dict(public_members(base))[m]
-                        del log[:]
-                        exc = await c01.invoke(getattr(atv, IACC[i]), m, kind, base)
-                        called = [e[0] for e in log if e[1] != "Features"]
-                        relay_ok = None
-                        if exc == "NotSupportedError" and not called:
-                            # does the relayer find an implementation when asked directly?
-                            try:
-                                atv._interfaces[base].relay(m)
-                                relay_ok = True
-                            except Exception as ex:  # noqa
-                                relay_ok = type(ex).__name__
-                        rec["calls"].append({"iface": i, "member": m, "holder": list(sc) if sc else None,
-                                             "take": c01.holder_of(atv, i), "called": called, "exc": exc, "relay": relay_ok})
+                        kws = [{}] if kind == "prop" else c01.arg_variants(getattr(base, m))
+                        if only_kwargs is not None:
+                            kws = [only_kwargs] if kind != "prop" else [{}]
+                        for kw in kws:
+                            del log[:]
+                            exc = await c01.invoke(getattr(atv, IACC[i]), m, kind, base, kw)
+                            called = [e[0] for e in log if e[1] != "Features"]
+                            relay_ok = None
+                            if exc == "NotSupportedError" and not called:
+                                # does the relayer find an implementation when asked directly?
+                                try:
+                                    atv._interfaces[base].relay(m)
+                                    relay_ok = True
+                                except Exception as ex:  # noqa
+                                    relay_ok = type(ex).__name__
+                            rec["calls"].append({"iface": i, "member": m, "arguments": c01.show_kwargs(kw),
+                                                 "holder": rec["holder"], "take": c01.holder_of(atv, i),
+                                                 "called": called, "exc": exc, "relay": relay_ok})
                 if tok:
                     tok()
-            out += recs_here
     finally:
         await cleanup()
     return out
@@ -348,8 +403,8 @@ def judge(rec):
     the facade / relayer is the violation.  Returns [(key, what, call)]."""
     bad = []
     for c in rec["calls"]:
-        where = "device profile %s, SetupData added %s, takeover %s: features reports %s as %s" % (
-            rec["profile"], rec["added"], c["holder"], rec["feature"], rec["state"])
+        where = "device profile %s, SetupData added %s, takeover %s: features reports %s as %s; arguments %s" % (
+            rec["profile"], rec["added"], c["holder"], rec["feature"], rec["state"], c.get("arguments") or "default")
         if c["exc"] == "NotSupportedError" and not c["called"]:
             gated = (c["iface"], c["member"]) == ("Stream", "play_url") and not rec["gate"]
             if c["relay"] is True and gated:
@@ -451,6 +506,13 @@ def run(ctx):
             ctx.violation(key, what, dict(r, call=call))
     # ---------------------------------------------------------------- (a) real objects
     fcases, fmeta, icases, imeta = [], [], [], []
+    try:
+        discovered = vloop.run(discover_takeovers)
+    except Exception:  # noqa
+        discovered = []
+    ctx.extra["takeovers_requested_by_the_streaming_code"] = discovered
+    if not discovered:
+        ctx.tie_broken("translator:takeover-sets", "stream_file / play_url did not reach core.takeover when started offline")
     sigs = {}
     for k, pr in enumerate(t["profiles"]):
         sigs.setdefault(json.dumps(pr["units"], sort_keys=True), k)
@@ -463,19 +525,21 @@ def run(ctx):
         for mode in ("real", "worst"):
             if mode == "worst" and not full:
                 continue
-            recs = vloop.run(drive_real, t, mode, pidx, orders, None, holder_scenarios(ctx.rng, ctx.thorough))
+            recs = vloop.run(drive_real, t, mode, pidx, orders, None,
+                             lambda protos, _m=mode: holder_scenarios(ctx.rng, ctx.thorough, discovered, protos, _m))
             for rec in recs:
                 ctx.traces += 1
                 reported = rec["state"] != "Unsupported"
-                ctx.case((mode, rec["profile"], tuple(rec["order"]), rec["feature"], rec["state"], tuple(rec["asked"])), nontrivial=reported,
-                         sample={"mode": mode, "profile": rec["profile"], "added": rec["added"], "feature": rec["feature"],
+                hk = json.dumps(rec["holder"])
+                ctx.case((mode, rec["profile"], tuple(rec["order"]), hk, rec["feature"], rec["state"], tuple(rec["asked"])), nontrivial=reported,
+                         sample={"mode": mode, "profile": rec["profile"], "added": rec["added"], "holder": rec["holder"], "feature": rec["feature"],
                                  "state": rec["state"], "asked": rec["asked"], "calls": rec["calls"]} if reported else None)
                 ctx.count("%s:%s" % (mode, rec["state"]))
                 ctx.count("profile:" + rec["profile"])
                 for key, what, call in judge(rec):
                     ctx.violation(key, what, {"kind": "real", "mode": mode, "profile": rec["profile"], "added": rec["added"],
-                                              "holder": call["holder"], "feature": rec["feature"], "state": rec["state"],
-                                              "call": call})
+                                              "holder": call["holder"], "arguments": call.get("arguments") or {},
+                                              "feature": rec["feature"], "state": rec["state"], "call": call})
                 obs = fres_of(rec["asked"], rec["state"])
                 if obs is None:
                     ctx.tie_broken("correspondence:features-unexpected-observation", json.dumps(rec))
@@ -491,19 +555,21 @@ def run(ctx):
                         ctx.tie_broken("correspondence:invoke-unexpected-observation", json.dumps(rec))
                         continue
                     ctx.count("holder:" + (c["holder"][0] + ("*" if len(c["holder"][1]) > 4 else "") if c["holder"] else "none"))
+                    if c.get("arguments"):
+                        ctx.count("calls-with-non-default-arguments")
                     icases.append("(%d, %s, %s, %s, %s%%string, %s, %s)" % (pidx, ids, coq_protos(c["take"]), ICOQ[c["iface"]],
                                                                      coq_str(c["member"]), common.cbool(rec["gate"]), cr))
     ctx.exhaustive = bool(ctx.thorough)
     ctx.note("real objects driven %.1fs" % (time.time() - ctx.t0))
     funiq = list(dict.fromkeys(fcases))
     c01.run_cases_in_coq(ctx, "features", HEADER, "nat * list nat * feature * fres", "check_real_feature",
-                         funiq, lambda b: {"case": funiq[b], "profiles": ctx.extra["profiles"]}, per=4000)
+                         funiq, lambda b: {"case": funiq[b], "profiles": ctx.extra["profiles"]}, per=2000)
     uniq = list(dict.fromkeys(icases))
     ctx.count("invoke-cases-distinct", len(uniq))
-    if not ctx.thorough and len(uniq) > 12000:
-        uniq = ctx.rng.sample(uniq, 12000)      # the oracle judged every call; the model comparison is sampled
+    if not ctx.thorough and len(uniq) > 8000:
+        uniq = ctx.rng.sample(uniq, 8000)      # the oracle judged every call; the model comparison is sampled
     c01.run_cases_in_coq(ctx, "invoke", HEADER, "nat * list nat * list proto * iface * string * bool * callres", "check_real_invoke",
-                         uniq, lambda b: {"case": uniq[b], "profiles": ctx.extra["profiles"]}, per=4000)
+                         uniq, lambda b: {"case": uniq[b], "profiles": ctx.extra["profiles"]}, per=2000)
     ctx.note("real objects compared %.1fs" % (time.time() - ctx.t0))
     # ---------------------------------------------------------------- (b) arbitrary tables
     n = 1500 if not ctx.thorough else 20000
@@ -553,12 +619,18 @@ async def replay_one(r, t, verbose=True):
         if verbose:
             print("profile %s no longer yields %s" % (r["profile"], [x for x in r["added"] if x not in lab]))
     sc = [tuple(r["holder"])] if r.get("holder") else [None]
-    recs = await drive_real(t, r.get("mode", "real"), pidx, [order], [r["feature"]], sc)
+    kw = None
+    if r.get("call"):
+        c = r["call"]
+        base = iface_cls(c["iface"])
+        if not isinstance(getattr(base, c["member"]), property):
+            kw = c01.load_kwargs(getattr(base, c["member"]), c.get("arguments"))
+    recs = await drive_real(t, r.get("mode", "real"), pidx, [order], [r["feature"]], sc, kw)
     out = []
     for rec in recs:
         if verbose:
-            print("profile=%s added=%s feature=%s state=%s asked=%s calls=%s" % (
-                rec["profile"], rec["added"], rec["feature"], rec["state"], rec["asked"], rec["calls"]))
+            print("profile=%s added=%s holder=%s feature=%s state=%s asked=%s calls=%s" % (
+                rec["profile"], rec["added"], rec["holder"], rec["feature"], rec["state"], rec["asked"], rec["calls"]))
         out += judge(rec)
     return out
 
